@@ -1,12 +1,14 @@
 import SqlgrepModel.Lemmas.ExecT
 import SqlgrepModel.Lemmas.AggPermSafe
+import SqlgrepModel.Lemmas.AggSplitSummaries
 import SqlgrepModel.Lemmas.LimitAgg
 /-
 The traced batch run (`Model/ExecT.lean`, what `Pipeline.runText` executes) of an aggregate statement in the scope of
 its specification: the ONE print call it makes is the final one, with the specification's table
 (`runBatchT_agg_spec` — `batch_refines_spec_nojoin` strengthened from the text rendering to the result table handed to
 the printer), hence the traced run ignores the order of the input lines and how they are spread over files
-(`runBatchT_perm_invariant` — `runBatch_perm_invariant` for the traced run, several files).
+(`runBatchT_perm_invariant` — `runBatch_perm_invariant` for the traced run, several files), and over a split input it
+hands the printer the table of the merged summaries of the parts (`runBatchT_concat_merge_summaries`).
 -/
 set_option linter.unusedSimpArgs false
 namespace Sqlgrep
@@ -85,46 +87,61 @@ theorem runBatchT_agg_spec {O : Oracles} {qy : Query} {q : AggStmt} (hq : qy.stm
       simp only [afterLines, hasFailed, hfin', ← hro]
       simp
 
-/-- the specification's answer for a batch run depends on the multiset of all input lines only (under `PermSafe`) -/
-theorem specBatch_perm {O : Oracles} {qy : Query} {q : AggStmt} (hj : qy.join = none) (joined : List FileLine)
-    {f1 f2 : List (List FileLine)} (hp : f1.flatten.Perm f2.flatten)
-    (hsafe : ∀ keyed, keyedRows O q (envsOf qy.table f1.flatten) = some keyed → PermSafe O q keyed)
-    {ro : RunOut} (h1 : Spec.Agg.batch O qy q joined f1 = some (ro, ""))
-    (hc2 : deviationClass O q (envsOf qy.table f2.flatten) = "") :
-    Spec.Agg.batch O qy q joined f2 = some (ro, "") := by
-  unfold Spec.Agg.batch at h1 ⊢
-  simp only [hj] at h1 ⊢
-  have hany : f2.flatten.any (fun fl => !fl.readable) = f1.flatten.any (fun fl => !fl.readable) := hp.symm.any_eq
-  rw [hany]
-  split at h1
-  · simp at h1
-  · rename_i hr
-    simp only [hr, if_false, Bool.false_eq_true]
-    unfold Spec.Agg.batchOver at h1 ⊢
-    rw [← table_perm (envsOf_perm qy.table hp) hsafe, ← hp.length_eq]
-    cases ht : table O q (envsOf qy.table f1.flatten) with
-    | none => simp [ht] at h1
-    | some t =>
-      simp only [ht, Option.some.injEq, Prod.mk.injEq] at h1 ⊢
-      exact ⟨h1.1, hc2⟩
-
 /-- **the traced batch run ignores the order of the input lines** (and how they are spread over files): for an
 aggregate statement without join and two inputs whose lines are permutations of each other — same `RunOut`, same
-print call — whenever the specification answers for the first with an empty deviation class, `PermSafe` holds for its
-admitted rows, and the second is outside D10/D15 as well -/
+print call — whenever the specification answers for the first with an empty deviation class and `PermSafe` holds for its
+admitted rows (the second input is then outside D10 / D15 as well: `specBatch_perm`, `deviationClass_perm`) -/
 theorem runBatchT_perm_invariant {O : Oracles} {qy : Query} {q : AggStmt} (hq : qy.stmt = .aggregate q) (hwf : StmtWF q)
     (hj : qy.join = none) (joined : List FileLine) (joined' : Option (List FileLine)) {f1 f2 : List (List FileLine)}
     (hp : f1.flatten.Perm f2.flatten)
     (hsafe : ∀ keyed, keyedRows O q (envsOf qy.table f1.flatten) = some keyed → PermSafe O q keyed)
-    {ro : RunOut} (h1 : Spec.Agg.batch O qy q joined f1 = some (ro, ""))
-    (hc2 : deviationClass O q (envsOf qy.table f2.flatten) = "") :
+    {ro : RunOut} (h1 : Spec.Agg.batch O qy q joined f1 = some (ro, "")) :
     runBatchT O qy joined' f1 = runBatchT O qy joined' f2 := by
-  have h2 := specBatch_perm hj joined hp hsafe h1 hc2
+  have h2 := specBatch_perm hj joined hp hsafe h1
   obtain ⟨t1, ht1, e1⟩ := runBatchT_agg_spec hq hwf hj joined joined' f1 h1
   obtain ⟨t2, ht2, e2⟩ := runBatchT_agg_spec hq hwf hj joined joined' f2 h2
   have : t1 = t2 := by
     rw [table_perm (envsOf_perm qy.table hp) hsafe, ht2] at ht1
     exact (Option.some.inj ht1).symm
   rw [e1, e2, this]
+
+/-- the traced run of an aggregate statement that ends well: the specification's `RunOut` and the one, final, print call -/
+def tableTrace (q : AggStmt) (t : List (List Value)) (total : Nat) : TraceOut :=
+  { out := tableOut q t total, calls := [{ result := { columns := q.items.map (·.name), rows := t }, final := true }] }
+
+/-- **the traced batch run over a split input**: `runBatch_concat_merge_summaries` for the run `Pipeline.runText` executes —
+the `RunOut` AND the table handed to the printer (which every output format is computed from) for the whole are those of
+the merged summaries of the two parts; for each part those of its summaries -/
+theorem runBatchT_concat_merge_summaries {O : Oracles} {qy : Query} {q : AggStmt} (hq : qy.stmt = .aggregate q) (hwf : StmtWF q)
+    (hj : qy.join = none) (hOI : ∀ kind ∈ slotKinds q, orderInsensitive kind = true) (joined : List FileLine)
+    (joined' : Option (List FileLine)) {f f₁ f₂ : List (List FileLine)} (hf : f.flatten = f₁.flatten ++ f₂.flatten)
+    {ro ro₁ ro₂ : RunOut} {cls : String}
+    (h : Spec.Agg.batch O qy q joined f = some (ro, cls)) (h₁ : Spec.Agg.batch O qy q joined f₁ = some (ro₁, ""))
+    (h₂ : Spec.Agg.batch O qy q joined f₂ = some (ro₂, ""))
+    (hsafe : ∀ k₁ k₂, keyedRows O q (envsOf qy.table f₁.flatten) = some k₁ → keyedRows O q (envsOf qy.table f₂.flatten) = some k₂ →
+      ∀ k, SplitSafe O q (rowsOfKey k k₁) (rowsOfKey k k₂)) :
+    ∃ S₁ S₂ t₁ t₂ t,
+      partSummaries O q (envsOf qy.table f₁.flatten) = some S₁ ∧ partSummaries O q (envsOf qy.table f₂.flatten) = some S₂ ∧
+      tableOfSummaries O q S₁ = some t₁ ∧ tableOfSummaries O q S₂ = some t₂ ∧
+      tableOfSummaries O q (mergeSummaries q S₁ S₂) = some t ∧
+      runBatchT O qy joined' f₁ = tableTrace q t₁ f₁.flatten.length ∧
+      runBatchT O qy joined' f₂ = tableTrace q t₂ f₂.flatten.length ∧
+      runBatchT O qy joined' f = tableTrace q t (f₁.flatten.length + f₂.flatten.length) := by
+  have hcls := specBatch_concat_class hwf hj hOI joined hf h h₁ h₂
+  subst hcls
+  obtain ⟨S₁, S₂, t₁, t₂, t, hS₁, hS₂, _, hT₁, hT₂, hT, ht₁, ht₂, ht, e₁, e₂, e⟩ :=
+    specBatch_concat_merge_summaries hwf hj hOI joined hf h h₁ h₂ hsafe
+  obtain ⟨u₁, hu₁, r₁⟩ := runBatchT_agg_spec hq hwf hj joined joined' f₁ h₁
+  obtain ⟨u₂, hu₂, r₂⟩ := runBatchT_agg_spec hq hwf hj joined joined' f₂ h₂
+  obtain ⟨u, hu, r⟩ := runBatchT_agg_spec hq hwf hj joined joined' f h
+  have i₁ : u₁ = t₁ := Option.some.inj (hu₁.symm.trans ht₁)
+  have i₂ : u₂ = t₂ := Option.some.inj (hu₂.symm.trans ht₂)
+  have i : u = t := Option.some.inj (hu.symm.trans ht)
+  subst i₁; subst i₂; subst i
+  simp only at e₁ e₂ e
+  refine ⟨S₁, S₂, u₁, u₂, u, hS₁, hS₂, hT₁, hT₂, hT, ?_, ?_, ?_⟩
+  · rw [r₁, e₁]; rfl
+  · rw [r₂, e₂]; rfl
+  · rw [r, e]; rfl
 
 end Sqlgrep
